@@ -145,7 +145,7 @@ def reader_work(exe, mode, start, items):
 
 # ------------------------------------------------------------------------------------------------------------------------------
 # Monitor 2
-SOLVER_FAMILIES = ["cons", "tp", "pin", "obj", "sv", "rr", "tl", "rules", "sx", "cyc", "examples"]
+SOLVER_FAMILIES = ["cons", "tp", "pin", "obj", "sv", "rr", "tl", "rules", "sx", "cyc", "sync", "examples"]
 TINY_FAMILIES = ("cons", "tp", "pin", "sx")       # a handful of variables / at most five atoms: a search that does not finish in minutes does not terminate
 
 
@@ -297,7 +297,7 @@ def exec_work(exes, family, start, n):
 def run(tier):
     res = common.Result(PID, tier, "monitor 1: prefixes / delimiter edits of shipped and generated programs, pathological literals and nesting, random bytes and token soups given to "
                         "riddle_parser and to solver::read under ASan/UBSan with a 10 s / 2 GiB bound per input; monitor 2: every solver-level workload family and the shipped "
-                        "examples through read()+solve() under ASan/UBSan with assertions on, and on the Release build; monitor 3: every network-level workload family "
+                        "examples through read()+solve() under ASan/UBSan with assertions on, and on the Release build, plus several times as many programs on the plain assertion build; monitor 3: every network-level workload family "
                         "under ASan/UBSan with assertions on and LeakSanitizer; refuting events: signal, abort, std::terminate, sanitizer report, failed assertion, "
                         "no termination of the reader, memory exhaustion on a tiny input, a leak site inside the network layer; non-trivial = a non-empty input / "
                         "an executed program or history")
@@ -318,6 +318,12 @@ def run(tier):
     for fam in SOLVER_FAMILIES:
         n = len(plan.example_groups()) * 2 if fam == "examples" else per_family
         common.pmap(solver_work, [(exes, fam, s, 6) for s in range(0, n, 6)], res)
+    # monitor 2b: the assertion build alone (no sanitizer, cheap) on many more programs per family
+    dexes = {"dbg": build.driver("dbg", "probe", libs=("solver", "core", "riddle", "smt", "json"))}
+    for fam in SOLVER_FAMILIES:
+        if fam != "examples":
+            per_family = (2000 if fam in ("cons", "tp", "pin", "obj", "sx") else 400) if tier == "quick" else 8000
+            common.pmap(solver_work, [(dexes, fam, 100000 + s, 20) for s in range(0, per_family, 20)], res)
     # monitor 3
     nd = build.driver("asan", "net_drv")
     per_family = 320 if tier == "quick" else 8000
@@ -327,7 +333,7 @@ def run(tier):
     from checks import c19
     xd = {"asan": build.driver("asan", "exec_drv", libs=("executor", "solver", "core", "riddle", "smt", "json"))}
     nx = 48 if tier == "quick" else 1200
-    for fam in ("sv", "rr", "tl"):
+    for fam in ("sv", "rr", "tl", "sync"):
         common.pmap(exec_work, [(xd, fam, s, 4) for s in range(0, nx, 4)], res)
     if tier == "thorough":
         from checks import fuzz
